@@ -187,6 +187,6 @@ example : (handle Ex.P Ex.cfg (run Ex.P Ex.cfg Ex.st0 [.request (Ex.basicReq "YW
              (Ex.basicReq "Ym9iOndvbmRlcg==")).2 = .refuse (.s401b false) := by decide
 example : (run Ex.P Ex.cfg Ex.st0 [.request (Ex.basicReq "YWxpY2U6d29uZGVy")]).cache.length = 1 := by decide
 -- c16_cache_expires / c16_cache_forgets: the entry is gone 608 s later
-example : (run Ex.P Ex.cfg Ex.st0 [.request (Ex.basicReq "YWxpY2U6d29uZGVy"), .adv 608]).cache = [] := by decide
+example : (run Ex.P Ex.cfg Ex.st0 [.request (Ex.basicReq "YWxpY2U6d29uZGVy"), .adv 608]).cache = [] := by decide +kernel
 
 end LtVerif.C16
